@@ -226,6 +226,14 @@ func (b *cBuilder) stmts(list []ast.Stmt, k int, env cEnv) int {
 		}
 		cfail(st, "unsupported branch statement")
 	case *ast.SendStmt:
+		// ch <- *deq(mq): the head is unlinked first and then sent. The queue is private to this goroutine, so nobody can
+		// tell this from `ch <- head(mq); deq(mq)` (the element waits in the goroutine's hand instead of at the head).
+		if se, ok := x.Value.(*ast.StarExpr); ok {
+			if _, n, args, ok := callName(se.X); ok && n == "deq" && len(args) == 1 && b.isMq(args[0]) {
+				d := b.add(&cNode{kind: "deq", next: rest()})
+				return b.add(&cNode{kind: "sendhead", ch: b.chOf(x.Chan), next: d})
+			}
+		}
 		// ch <- head(mq)   (blocking)
 		if !b.isHead(x.Value) {
 			cfail(st, "send of something that is not head(mq)")
